@@ -19,6 +19,45 @@ pub struct Case {
 
 pub struct Conventions;
 
+/// Virtual functions whose receiver is not written first. Only on functions with an underscore name
+/// (a wrapper with a misplaced receiver is not valid Rust, and those get none) of types without bases
+/// that nobody derives from (so that no other table has to agree with the change).
+fn misplace_receivers(t: &mut Tape, prog: &mut Prog) {
+    let mut used_as_base: Vec<String> = vec![];
+    for m in &prog.mods {
+        for td in m.types() {
+            for f in td.fields.iter().filter(|f| f.base) {
+                if let Some(n) = f.ty.leaf() {
+                    used_as_base.push(n.to_string());
+                }
+            }
+        }
+    }
+    for m in prog.mods.iter_mut() {
+        for it in m.items.iter_mut() {
+            let Item::Type(td) = it else { continue };
+            if td.fields.iter().any(|f| f.base) || used_as_base.contains(&td.name) {
+                continue;
+            }
+            let Some(v) = &mut td.vft else { continue };
+            for f in v.funcs.iter_mut() {
+                if !f.has_self() || !t.chance(1, 3) {
+                    continue;
+                }
+                if !f.name.starts_with('_') {
+                    f.name = format!("_{}", f.name);
+                }
+                if f.args.len() == 1 {
+                    f.args.push(Arg::Named("a0".into(), Ty::n("u32")));
+                }
+                let recv = f.args.remove(0);
+                let pos = 1 + t.below(f.args.len() as u64) as usize;
+                f.args.insert(pos.min(f.args.len()), recv);
+            }
+        }
+    }
+}
+
 pub fn check_ccs(prog: &Prog, w: u64, built: &Built) -> Result<(usize, usize), (String, String)> {
     let mut model = Model::new(prog, w);
     let mut n_slots = 0;
@@ -120,7 +159,7 @@ impl Prop for Conventions {
         "C16/conventions".into()
     }
     fn rule(&self) -> String {
-        "programs from the rich generator with impl and vftable functions over all seven conventions and without the attribute, with and without receiver, through inheritance chains (derived tables repeating base slots, inherited tables, re-exposed functions). Oracle on the unnormalised output (syn visitor over every bare-fn type): each slot of each emitted <T>Vftable carries the declared convention, else thiscall with a receiver, else system; placeholder slots thiscall; each address-bound wrapper has exactly one fn-pointer type and it carries the same string; wrappers that go through a slot or a base carry no contradicting fn-pointer type. Non-trivial: >=2 different conventions in the program, or a defaulted one".into()
+        "programs from the rich generator with impl and vftable functions over all seven conventions and without the attribute, with and without receiver (also written after other parameters, on underscore-named virtual functions), through inheritance chains (derived tables repeating base slots, inherited tables, re-exposed functions). Oracle on the unnormalised output (syn visitor over every bare-fn type): each slot of each emitted <T>Vftable carries the declared convention, else thiscall with a receiver, else system; placeholder slots thiscall; each address-bound wrapper has exactly one fn-pointer type and it carries the same string; wrappers that go through a slot or a base carry no contradicting fn-pointer type. Non-trivial: >=2 different conventions in the program, or a defaulted one".into()
     }
     fn gen(&self, t: &mut Tape) -> Case {
         let w = if t.chance(1, 2) { 8 } else { 4 };
@@ -133,7 +172,10 @@ impl Prop for Conventions {
         cfg.alias_types = 4;
         cfg.allow_f20 = true;
         cfg.vft_base_anywhere = true;
-        let (prog, _, _) = gen_prog(t, cfg);
+        let (mut prog, _, _) = gen_prog(t, cfg);
+        if t.chance(1, 4) {
+            misplace_receivers(t, &mut prog);
+        }
         Case { prog, w }
     }
     fn judge(&self, c: &Case) -> Outcome {
@@ -232,7 +274,7 @@ impl Prop for UnknownNames {
             td.vft = Some(Vft { size: None, funcs: vec![f] });
         } else {
             td.fields.push(Field::new("a", Ty::n("u32")));
-            m.impls.push(Impl { ty: "T".into(), funcs: vec![f] });
+            m.impls.push(Impl { more: vec![], ty: "T".into(), funcs: vec![f] });
         }
         m.items.push(Item::Type(td));
         let prog = Prog { mods: vec![m] };
